@@ -116,7 +116,7 @@ Definition cypher_plan_of (q : query) : lop :=
   let body := where_plan (q_where q) (chain_plan (q_pat q)) in
   match q_ret q with
   | RPlain items d => opt_limit (q_limit q) (opt_skip (q_skip q) (opt_sort (q_order q) (LReturn (ret_items items) d body)))
-  | RAgg keys aggs => LAggregate keys aggs body
+  | RAgg keys aggs => opt_limit (q_limit q) (opt_skip (q_skip q) (LAggregate keys aggs body))
   end.
 (** before a5bb467 Cypher's count(expr) became AggregateFunction::Count (count-star semantics) *)
 Definition cypher_agg_pre (a : aggx) : aggx :=
@@ -128,7 +128,7 @@ Definition cypher_plan_pre_of (q : query) : lop :=
   let body := where_plan (q_where q) (chain_plan (q_pat q)) in
   match q_ret q with
   | RPlain items d => opt_limit (q_limit q) (opt_skip (q_skip q) (opt_sort (q_order q) (LReturn (ret_items items) d body)))
-  | RAgg keys aggs => LAggregate keys (map cypher_agg_pre aggs) body
+  | RAgg keys aggs => opt_limit (q_limit q) (opt_skip (q_skip q) (LAggregate keys (map cypher_agg_pre aggs) body))
   end.
 (** before 36a1196 plan_return never looked at ReturnOp.distinct: the plan behaved like the same
     plan with every DISTINCT flag cleared *)
